@@ -8,7 +8,7 @@ import DadiVerif.Lemmas.PopOpsSplit
 import DadiVerif.Lemmas.PopOpsMisc
 import DadiVerif.Lemmas.PopOpsMix
 import DadiVerif.Lemmas.PopOpsRedeal
-import DadiVerif.Lemmas.PopOpsFoldReorder
+import DadiVerif.Lemmas.PopOpsFoldCombine
 /-!
 # C10 — population bookkeeping on spectra equals explicit index arithmetic, keeps labels
 
@@ -740,11 +740,26 @@ theorem C10_project_merged_mixture_model (a b M : Nat) (S : FS) (hc : Clean S) (
     Obs (projectAxis a M (combineTwoCore a b S)) (mixSplit a b M S) ∧
     ∀ ma, ma ≤ M → splitW (S.shape.getD a 0 - 1) (S.shape.getD b 0 - 1) M ma
       = hyp (S.shape.getD a 0 - 1) ((S.shape.getD a 0 - 1) + (S.shape.getD b 0 - 1)) M ma :=
-  ⟨mixSplit_obs a b M S hc hab hb hM, fun ma hma => splitW_eq _ _ _ _ hma⟩
+  ⟨mixSplit_obs a b M S hc hab hb hM, fun _ hma => splitW_eq _ _ _ _ hma⟩
 
 example : let S := ofArrays [3, 2, 3] (Array.replicate 18 1) (Array.replicate 18 false) false none
     Clean S ∧ (0 : Nat) < 2 ∧ 2 < S.ndim ∧ 3 ≤ (S.shape.getD 0 0 - 1) + (S.shape.getD 2 0 - 1) ∧ (mixSplit 0 2 3 S).shape = [4, 2] := by
   refine ⟨⟨by decide, by decide +kernel⟩, by decide, by decide, by decide, by decide⟩
+
+/-- …and for the public functions `fs.combine_two_pops([p, q]).project(ns)` (either order of `p`, `q`), `ns` keeping every sample
+    size except that of the merged population, which goes to `M < n_a + n_b`: both calls succeed, the result is observationally
+    `mixSplit`, keeps the labels of the merged spectrum and is unfolded. -/
+theorem C10_project_merged_mixture_public (p q M : Nat) (S : FS) (hf : S.folded = false) (hc : Clean S)
+    (hp : 1 ≤ p ∧ p ≤ S.ndim) (hq : 1 ≤ q ∧ q ≤ S.ndim) (hpq : p ≠ q)
+    (hM : M < (S.shape.getD (min p q - 1) 0 - 1) + (S.shape.getD (max p q - 1) 0 - 1)) :
+    ∃ T A, combineTwo p q S = some T ∧ project ((T.shape.map (· - 1)).set (min p q - 1) M) T = some A ∧
+      Obs A (mixSplit (min p q - 1) (max p q - 1) M S) ∧ A.labels = T.labels ∧ A.folded = false :=
+  combineTwo_project_merged_public p q M S hf hc hp hq hpq hM
+
+example : let S := ofArrays [3, 2, 3] (Array.replicate 18 1) (Array.replicate 18 false) false (some ["a", "b", "c"])
+    S.folded = false ∧ Clean S ∧ (1 ≤ 3 ∧ 3 ≤ S.ndim) ∧ (1 ≤ 1 ∧ 1 ≤ S.ndim) ∧ (3 : Nat) ≠ 1
+    ∧ 3 < (S.shape.getD (min 3 1 - 1) 0 - 1) + (S.shape.getD (max 3 1 - 1) 0 - 1) := by
+  refine ⟨rfl, ⟨by decide, by decide +kernel⟩, by decide, by decide, by decide, by decide⟩
 
 /-- **scramble_pop_ids vs projection, the form that is true, any number of populations**:
     `project(scramble U) = re-deal(project(pool U))`.  For every spectrum without empty axes (any mask — masked entries count 0 in the
@@ -889,6 +904,26 @@ theorem C10_commute_project_reorder_folded (neworder ms : List Nat) (F : FS) (hf
 
 example : let F := foldCore (ofArrays [2, 3, 4] (Array.replicate 24 1) (Array.replicate 24 false) false (some ["a", "b", "c"]))
     F.folded = true ∧ sortAsc [3, 1, 2] = (List.range F.ndim).map (· + 1) := by decide
+
+/-- **combine_two_pops ∘ project = project ∘ combine_two_pops on FOLDED input** (the two merged populations keep their sizes), for
+    a GENUINE folded spectrum: standard mask and zeros under the folded-out mask — what `fold` produces.  (The zeros are needed:
+    `combine_two_pops` skips masked entries while `unfold` reads them, see `C10_obs_not_congruence_for_unfold`.)  Uses
+    `combine(fold X) ~ fold(combine X)` (any mask, `ObsF`) and `unfold(combine F) ~ combine(unfold F)`. -/
+theorem C10_commute_project_combine_two_folded (p q : Nat) (ms : List Nat) (F : FS) (hf : F.folded = true) (hpos : ∀ s ∈ F.shape, 1 ≤ s)
+    (hmask : ∀ i ∈ F.box, F.msk i = (foldedOut F.shape i || isCorner F.shape i))
+    (hzero : ∀ i ∈ F.box, foldedOut F.shape i = true → F.dat i = 0)
+    (hp : 1 ≤ p ∧ p ≤ F.ndim) (hq : 1 ≤ q ∧ q ≤ F.ndim) (hpq : p ≠ q) (hadm : AdmSizes ms F.shape)
+    (hmp : ms.getD (p - 1) 0 + 1 = F.shape.getD (p - 1) 0) (hmq : ms.getD (q - 1) 0 + 1 = F.shape.getD (q - 1) 0) :
+    ∃ A B, (project ms F).bind (combineTwo p q) = some A ∧
+      (combineTwo p q F).bind (project (merge2 (min p q - 1) (max p q - 1) ms)) = some B ∧
+      ObsF A B ∧ A.labels = B.labels ∧ A.folded = true ∧ B.folded = true :=
+  combineTwo_project_folded p q ms F hf hpos hmask hzero hp hq hpq hadm hmp hmq
+
+example : let F := foldCore (ofArrays [2, 3, 2] (Array.replicate 12 1) (Array.replicate 12 false) false (some ["a", "b", "c"]))
+    F.folded = true ∧ (∀ i ∈ F.box, F.msk i = (foldedOut F.shape i || isCorner F.shape i))
+    ∧ (1 ≤ 3 ∧ 3 ≤ F.ndim) ∧ (1 ≤ 1 ∧ 1 ≤ F.ndim) ∧ (3 : Nat) ≠ 1
+    ∧ ([1, 1, 1] : List Nat).getD (3 - 1) 0 + 1 = F.shape.getD (3 - 1) 0 ∧ ([1, 1, 1] : List Nat).getD (1 - 1) 0 + 1 = F.shape.getD (1 - 1) 0 := by
+  refine ⟨rfl, by decide +kernel, by decide, by decide, by decide, by decide, by decide⟩
 
 /-! ## the two obligations that the generated wiring must meet (they fail while the defect is in the source) -/
 
